@@ -303,6 +303,10 @@ impl<'a> Gen<'a> {
         m.settings_changed = self.opt_time();
         for i in 0..self.rng.below(3) {
             let mut content = self.rng.bytes_range(1, 60);
+            if !self.hostile && self.rng.chance(1, 40) {
+                // very compressible and large: expands far more than 100:1 when read back
+                content = vec![self.rng.next() as u8; 200_000 + self.rng.below(1000) as usize];
+            }
             if self.on("empty-binary-content", 1, 2) {
                 content.clear();
                 self.feat("empty-binary-content");
@@ -339,10 +343,19 @@ impl<'a> Gen<'a> {
             let content = self.rng.bytes_below(30);
             db.header_attachments.push(HeaderAttachment { flags: self.rng.next() as u8, content });
         }
+        if !self.hostile && self.rng.chance(1, 40) {
+            // a large, very compressible attachment (the whole payload expands far more than 100:1 under gzip)
+            db.header_attachments.push(HeaderAttachment { flags: 1, content: vec![0u8; 300_000 + self.rng.below(1000) as usize] });
+        }
         for _ in 0..self.rng.below(3) {
             let u = self.uuid();
             let t = self.time();
             db.deleted_objects.objects.push(DeletedObject { uuid: u, deletion_time: t });
+            if self.rng.chance(1, 4) {
+                // the same object recorded as deleted a second time, at another moment
+                let t2 = self.time();
+                db.deleted_objects.objects.push(DeletedObject { uuid: u, deletion_time: t2 });
+            }
         }
         db
     }
